@@ -196,9 +196,32 @@ def spec_fn(inst):
 # macro tables
 
 def M(name, file, sig, call, vars, spec, exits=0, temps=(), inst=None, seq=None, pin=None, note=None, guard=None,
-      witness=None):
-    return dict(name=name, file=file, sig=sig, call=call, vars=list(vars), spec=spec, exits=exits,
-                temps=list(temps), inst=inst, seq=seq, pin=pin or {}, note=note, guard=guard, witness=witness)
+      witness=None, sweep=None):
+    e = dict(name=name, file=file, sig=sig, call=call, vars=list(vars), spec=spec, exits=exits,
+             temps=list(temps), inst=inst, seq=seq, pin=pin or {}, note=note, guard=guard, witness=witness, sweep=sweep)
+    if sweep is None:
+        keys = {k for t in ('quick', 'thorough', 'sample') for p in inst[t] for k in p if k not in ('w', 'pin')}
+        if keys == {'n'}:
+            e['sweep'] = lambda n, rng: {'n': n}
+    return e
+
+
+# SIZE SWEEP (sampled on the real engines, never a theorem): every macro with a `sweep` function (size, rng) -> parameters
+# is instantiated at sizes drawn from the WHOLE range 1..SWEEP_MAX (all of them for the size-critical macros and in the
+# thorough tier, a seed-chosen handful otherwise) and run on a few edge/random operands.  This is what notices a loop
+# counter / `#n` / `rep(n-..)` expression that is only wrong for some sizes.
+SIZE_CRITICAL = (r'div|mul|count_bits|cmp|scmp|min|max|sign|shifted|constant|shl|shr|shra|ror|rol|/t$|\.if|'
+                 r'bit\.(inc|dec|neg|add|sub)$')
+QUADRATIC = r'bit\.(mul(?!10)|mul_loop|div(?!10)|idiv|div_loop|idiv_loop)'
+
+
+def _sw_const(n, rng):
+    return {'n': n, 'c': rng.randrange(1, 16 ** n)}
+
+
+def _sw_shifted(n, rng):
+    sn = rng.randint(1, n)
+    return {'dn': n, 'sn': sn, 'sh': rng.randint(0, n - sn)}
 
 
 def N_(*ns, **extra):
@@ -237,7 +260,7 @@ HEX = [
       'hex_mov_self {n}', inst=H1),
     M('hex.set', 'hex/memory.fj', 'def set n, hex, val', 'hex.set {n}, {a}, {c}', [('a', 'hex', 'n')], 'hex_set {n} {c}',
       inst={'quick': consts([1], [0, 9, 15]), 'thorough': consts([1], range(16)) + consts([2], [0, 1, 0x5a, 0x80, 0xff]),
-            'sample': consts([4], [0xbeef])}),
+            'sample': consts([4], [0xbeef])}, sweep=_sw_const),
     M('hex.set/1', 'hex/memory.fj', 'def set hex, val', 'hex.set {a}, {c}', [('a', 'hex', '1')], 'hex_set 1 {c}',
       inst={'quick': [dict(c=6)], 'thorough': [dict(c=c) for c in (0, 6, 15)], 'sample': []}),
     M('hex.swap', 'hex/memory.fj', 'def swap n, hex1, hex2', 'hex.swap {n}, {a}, {b}', [('a', 'hex', 'n'), ('b', 'hex', 'n')],
@@ -249,7 +272,7 @@ HEX = [
     M('hex.xor_by', 'hex/memory.fj', 'def xor_by n, hex, val', 'hex.xor_by {n}, {a}, {c}', [('a', 'hex', 'n')],
       'hex_xor_by {n} {c}',
       inst={'quick': consts([1], [0, 5, 15]), 'thorough': consts([1], range(16)) + consts([2], [0, 1, 0xa5, 0xf0, 0xff]),
-            'sample': consts([4], [0x1234])}),
+            'sample': consts([4], [0x1234])}, sweep=_sw_const),
     M('hex.xor_by/1', 'hex/memory.fj', 'def xor_by hex, val', 'hex.xor_by {a}, {c}', [('a', 'hex', '1')], 'hex_xor_by 1 {c}',
       inst={'quick': [dict(c=9)], 'thorough': [dict(c=c) for c in (0, 9, 15)], 'sample': []}),
     # ---- hex/logics.fj
@@ -295,7 +318,7 @@ HEX = [
     M('hex.sign_extend', 'hex/math_basic.fj', 'def sign_extend full_n, signed_n, hex', 'hex.sign_extend {fn}, {sn}, {a}',
       [('a', 'hex', 'fn')], 'hex_sign_extend {fn} {sn}',
       inst={'quick': [dict(fn=2, sn=1)], 'thorough': [dict(fn=2, sn=1), dict(fn=3, sn=1), dict(fn=3, sn=2), dict(fn=2, sn=2)],
-            'sample': [dict(fn=8, sn=3), dict(fn=16, sn=8)]}),
+            'sample': [dict(fn=8, sn=3), dict(fn=16, sn=8)]}, sweep=lambda n, rng: {'fn': n, 'sn': rng.randint(1, n)}),
     M('hex.add_count_bits', 'hex/math_basic.fj', 'def add_count_bits n, dst, src', 'hex.add_count_bits {n}, {a}, {b}',
       [('a', 'hex', 'n'), ('b', 'hex', '1')], 'hex_add_count_bits {n}',
       inst={'quick': N_(1), 'thorough': N_(1, 2), 'sample': N_(4)}),
@@ -316,23 +339,23 @@ HEX = [
       inst={'quick': [dict(dn=2, sn=1, sh=1)],
             'thorough': [dict(dn=2, sn=1, sh=0), dict(dn=2, sn=1, sh=1), dict(dn=3, sn=1, sh=1, w=[64]),
                          dict(dn=2, sn=2, sh=0, w=[64]), dict(dn=3, sn=1, sh=2, w=[64])],
-            'sample': [dict(dn=8, sn=3, sh=2), dict(dn=16, sn=4, sh=5)]}),
+            'sample': [dict(dn=8, sn=3, sh=2), dict(dn=16, sn=4, sh=5)]}, sweep=_sw_shifted),
     M('hex.sub_shifted', 'hex/math.fj', 'def sub_shifted dst_n, src_n, dst, src, hex_shift',
       'hex.sub_shifted {dn}, {sn}, {a}, {b}, {sh}', [('a', 'hex', 'dn'), ('b', 'hex', 'sn')], 'hex_sub_shifted {dn} {sn} {sh}',
       inst={'quick': [dict(dn=2, sn=1, sh=1)],
             'thorough': [dict(dn=2, sn=1, sh=0), dict(dn=2, sn=1, sh=1), dict(dn=3, sn=1, sh=1, w=[64]),
                          dict(dn=2, sn=2, sh=0, w=[64]), dict(dn=3, sn=1, sh=2, w=[64])],
-            'sample': [dict(dn=8, sn=3, sh=2), dict(dn=16, sn=4, sh=5)]}),
+            'sample': [dict(dn=8, sn=3, sh=2), dict(dn=16, sn=4, sh=5)]}, sweep=_sw_shifted),
     M('hex.add_constant', 'hex/math.fj', 'def add_constant n, dst, const', 'hex.add_constant {n}, {a}, {c}',
       [('a', 'hex', 'n')], 'hex_add_constant {n} {c}',
       inst={'quick': consts([1], [0, 1, 15]) + consts([2], [0x10]),
             'thorough': consts([1], [0, 1, 7, 8, 15]) + consts([2], [0, 1, 0x10, 0x1f, 0x80, 0xf0, 0xff]) + consts([3], [0x100, 0x230, 0xfff]),
-            'sample': consts([8], [0x12345678, 0x1000, 1])}),
+            'sample': consts([8], [0x12345678, 0x1000, 1])}, sweep=_sw_const),
     M('hex.sub_constant', 'hex/math.fj', 'def sub_constant n, dst, const', 'hex.sub_constant {n}, {a}, {c}',
       [('a', 'hex', 'n')], 'hex_sub_constant {n} {c}',
       inst={'quick': consts([1], [1, 15]) + consts([2], [0x10]),
             'thorough': consts([1], [1, 7, 8, 15]) + consts([2], [1, 0x10, 0x1f, 0x80, 0xf0, 0xff]) + consts([3], [0x100, 0x230, 0xfff]),
-            'sample': consts([8], [0x12345678, 0x1000, 1])}),
+            'sample': consts([8], [0x12345678, 0x1000, 1])}, sweep=_sw_const),
     # ---- hex/mul.fj
     M('hex.mul', 'hex/mul.fj', 'def mul n, res, a, b', 'hex.mul {n}, {a}, {b}, {c}',
       [('a', 'hex', 'n'), ('b', 'hex', 'n'), ('c', 'hex', 'n')], 'hex_mul {n}', temps=T_HEXMUL, pin={'a': 0xa5},
@@ -349,7 +372,7 @@ HEX = [
       inst={'quick': [dict(n=1, nb=1, pin=1)],
             'thorough': [dict(n=1, nb=1, w=[64]), dict(n=1, nb=1, pin=1, w=[32]), dict(n=2, nb=1, pin=1)],
             'deep': [dict(n=2, nb=2, pin=1, w=[64])],
-            'sample': [dict(n=2, nb=2), dict(n=4, nb=2), dict(n=8, nb=8)]}),
+            'sample': [dict(n=2, nb=2), dict(n=4, nb=2), dict(n=8, nb=8)]}, sweep=lambda n, rng: {'n': n, 'nb': rng.randint(1, 16)}),
     M('hex.idiv', 'hex/div.fj', 'def idiv n, nb, q, r, a, b, div0, rem_opt',
       'hex.idiv {n}, {nb}, {q}, {r}, {a}, {b}, {x1}, {ro}',
       [('q', 'hex', 'n'), ('r', 'hex', 'nb'), ('a', 'hex', 'n'), ('b', 'hex', 'nb')], 'hex_idiv {n} {nb} {ro}', exits=1,
@@ -357,7 +380,7 @@ HEX = [
       inst={'quick': [dict(n=1, nb=1, ro=ro, pin=1) for ro in (0, 1, 2)],
             'thorough': [dict(n=1, nb=1, ro=ro, pin=1) for ro in (0, 1, 2)] + [dict(n=2, nb=1, ro=ro, pin=1, w=[64]) for ro in (0, 1, 2)],
             'deep': [dict(n=1, nb=1, ro=0, w=[64])] + [dict(n=2, nb=2, ro=ro, pin=1, w=[64]) for ro in (0, 1, 2)],
-            'sample': [dict(n=2, nb=2, ro=ro) for ro in (0, 1, 2)] + [dict(n=4, nb=4, ro=0)]}),
+            'sample': [dict(n=2, nb=2, ro=ro) for ro in (0, 1, 2)] + [dict(n=4, nb=4, ro=0)]}, sweep=lambda n, rng: {'n': n, 'nb': rng.randint(1, 16), 'ro': rng.randrange(3)}),
     # ---- hex/shifts.fj
     M('hex.shl_bit', 'hex/shifts.fj', 'def shl_bit n, dst', 'hex.shl_bit {n}, {a}', [('a', 'hex', 'n')], 'hex_shl_bit {n}',
       inst=H1, seq='hex.shl_bit {n}, {x}'),
@@ -370,11 +393,11 @@ HEX = [
     M('hex.shl_hex/t', 'hex/shifts.fj', 'def shl_hex n, times, dst', 'hex.shl_hex {n}, {t}, {a}', [('a', 'hex', 'n')],
       'hex_shl_hex {n} {t}',
       inst={'quick': [dict(n=2, t=1)], 'thorough': [dict(n=n, t=t) for n in (1, 2, 3) for t in range(n + 1)],
-            'sample': [dict(n=8, t=3), dict(n=16, t=16)]}),
+            'sample': [dict(n=8, t=3), dict(n=16, t=16)]}, sweep=lambda n, rng: {'n': n, 't': rng.randint(0, n)}),
     M('hex.shr_hex/t', 'hex/shifts.fj', 'def shr_hex n, times, dst', 'hex.shr_hex {n}, {t}, {a}', [('a', 'hex', 'n')],
       'hex_shr_hex {n} {t}',
       inst={'quick': [dict(n=2, t=1)], 'thorough': [dict(n=n, t=t) for n in (1, 2, 3) for t in range(n + 1)],
-            'sample': [dict(n=8, t=3), dict(n=16, t=16)]}),
+            'sample': [dict(n=8, t=3), dict(n=16, t=16)]}, sweep=lambda n, rng: {'n': n, 't': rng.randint(0, n)}),
     # ---- hex/cond_jumps.fj
     M('hex.if_flags', 'hex/cond_jumps.fj', 'def if_flags hex, flags, l0, l1', 'hex.if_flags {a}, {fl}, {x1}, {x2}',
       [('a', 'hex', '1')], 'hex_if_flags {fl}', exits=2,
@@ -504,14 +527,14 @@ BIT = [
     M('bit.shr', 'bit/shifts.fj', 'def shr n, x', 'bit.shr {n}, {a}', [('a', 'bit', 'n')], 'bit_shr {n} 1', inst=B1,
       seq='bit.shr {n}, {x}'),
     M('bit.shr/t', 'bit/shifts.fj', 'def shr n, times, x', 'bit.shr {n}, {t}, {a}', [('a', 'bit', 'n')], 'bit_shr {n} {t}',
-      inst={'quick': [dict(n=4, t=2)], 'thorough': shifts([1, 2, 3, 4, 8]), 'sample': [dict(n=16, t=5), dict(n=32, t=32)]}),
+      inst={'quick': [dict(n=4, t=2)], 'thorough': shifts([1, 2, 3, 4, 8]), 'sample': [dict(n=16, t=5), dict(n=32, t=32)]}, sweep=lambda n, rng: {'n': n, 't': rng.randint(0, n)}),
     M('bit.shra', 'bit/shifts.fj', 'def shra n, times, x', 'bit.shra {n}, {t}, {a}', [('a', 'bit', 'n')], 'bit_shra {n} {t}',
       inst={'quick': [dict(n=4, t=2)], 'thorough': [d for d in shifts([1, 2, 3, 4, 8]) if d['t'] >= 1],
-            'sample': [dict(n=16, t=5), dict(n=32, t=32)]}),
+            'sample': [dict(n=16, t=5), dict(n=32, t=32)]}, sweep=lambda n, rng: {'n': n, 't': rng.randint(1, n)}),
     M('bit.shl', 'bit/shifts.fj', 'def shl n, x', 'bit.shl {n}, {a}', [('a', 'bit', 'n')], 'bit_shl {n} 1', inst=B1,
       seq='bit.shl {n}, {y}'),
     M('bit.shl/t', 'bit/shifts.fj', 'def shl n, times, x', 'bit.shl {n}, {t}, {a}', [('a', 'bit', 'n')], 'bit_shl {n} {t}',
-      inst={'quick': [dict(n=4, t=2)], 'thorough': shifts([1, 2, 3, 4, 8]), 'sample': [dict(n=16, t=5), dict(n=32, t=32)]}),
+      inst={'quick': [dict(n=4, t=2)], 'thorough': shifts([1, 2, 3, 4, 8]), 'sample': [dict(n=16, t=5), dict(n=32, t=32)]}, sweep=lambda n, rng: {'n': n, 't': rng.randint(0, n)}),
     M('bit.ror', 'bit/shifts.fj', 'def ror n, x', 'bit.ror {n}, {a}', [('a', 'bit', 'n')], 'bit_ror {n}',
       temps=[('temp_bit', '1')], inst=B1, seq='bit.ror {n}, {x}'),
     M('bit.rol', 'bit/shifts.fj', 'def rol n, x', 'bit.rol {n}, {a}', [('a', 'bit', 'n')], 'bit_rol {n}',
